@@ -176,6 +176,22 @@ def iterated_keys(repo, func):
     return out
 
 
+def partial_iterations(repo, func):
+    """(K, node) for  `for x in <json_data[K] or json_data.get(K, ..)>[a:b]`"""
+    out = []
+    for n in walk_no_nested(func.node):
+        if isinstance(n, ast.For) and isinstance(n.iter, ast.Subscript) and isinstance(n.iter.slice, ast.Slice):
+            inner = n.iter.value
+            k = None
+            if isinstance(inner, ast.Subscript):
+                k = inner.slice
+            elif isinstance(inner, ast.Call) and isinstance(inner.func, ast.Attribute) and inner.func.attr == 'get' and inner.args:
+                k = inner.args[0]
+            if isinstance(k, ast.Constant) and isinstance(k.value, str):
+                out.append((k.value, n.iter))
+    return out
+
+
 def const_indexed(repo, func):
     """(K, node) for  json_data[K][<int>]"""
     out = []
@@ -256,7 +272,13 @@ def r2_siblings(ctx):
                 ctx.bad('R2.domain', site(b, node), f'{b.qual}|fixed-entry|{k}',
                         f'convert_{p} converts every entry of {k!r} but convert_back_{p} only converts entry '
                         f'[{node.slice.value}]: later entries keep their YANG form', ast.unparse(node))
-        if it_f and not [1 for k, _ in const_indexed(repo, b) if k in it_f]:
+        partial = partial_iterations(repo, b)
+        for k, node in partial:
+            if k in it_f:
+                ctx.bad('R2.domain', site(b, node), f'{b.qual}|partial-iteration|{k}',
+                        f'convert_{p} converts every entry of {k!r} but convert_back_{p} iterates over a slice of them only',
+                        ast.unparse(node))
+        if it_f and not [1 for k, _ in const_indexed(repo, b) if k in it_f] and not [1 for k, _ in partial if k in it_f]:
             ctx.ok('R2.domain', f'{site(f)} / {site(b)}', f'both twins range over all entries of {sorted(it_f)}')
         # consumption of written-back keys
         for k, tgt, stmt in written_keys(repo, b):
